@@ -3,6 +3,6 @@
 (* that must reach the handler.  VIEW hides ctx identities so histories are not multiplied  *)
 (* by the pool's nondeterminism.                                                            *)
 EXTENDS CtxFresh, Json
-Obs == [ hist |-> hist, dispatched |-> [i \in DOMAIN seen |-> seen[i].n] ]
+Obs == [ stream |-> stream, hist |-> hist, dispatched |-> [i \in DOMAIN seen |-> seen[i].n] ]
 Emit == ~Terminal \/ PrintT("BEHAVIOUR " \o ToJson(Obs))
 =============================================================================
